@@ -349,6 +349,9 @@ func genWork(seed uint64) (gwork, simrt.FaultPlan, simrt.MapPolicy, uint64) {
 	if r.Chance(0.25) {
 		p = 1 + r.Intn(4)
 	}
+	if r.Chance(0.004) {
+		p = []int{100, 250, 500, 1000}[r.Intn(4)] // the default page size and other round ones (rarely: up to 3001 rows)
+	}
 	var c int
 	switch k := r.Intn(9); k {
 	case 0:
